@@ -132,6 +132,8 @@ let run (imp : string) (inp : string) (obs : string) : string * string =
        | Some a, Some rs ->
          (match imp with
           | "swisscard2" -> statement_verdict imp base (K.sc2_statement_output a rs)
+          | "supercard" -> statement_verdict imp base (K.sup_statement_output a rs)
+          | "swisscard" -> statement_verdict imp base (K.sc_statement_output a rs)
           | "postfinance" -> statement_verdict imp base (K.pf_statement_output a rs)   (* postfinance_debug = false *)
           | _ -> "ok")                                     (* no executable statement-level specification yet *)
        | _ -> undecoded) in
